@@ -274,3 +274,20 @@ func SeamComplete() bool {
 	}
 	return true
 }
+
+// Empty is a stateless simulated disk without any file: every lookup fails
+// with "not exist".  Unlike Disk it keeps no access log, so tasks of the
+// scheduler driver (C19) may share it.
+type Empty struct{}
+
+func (Empty) ReadFile(name string) ([]byte, error) {
+	return nil, &fs.PathError{Op: "open", Path: name, Err: fs.ErrNotExist}
+}
+
+func (Empty) ReadDir(name string) ([]fs.FileInfo, error) {
+	return nil, &fs.PathError{Op: "open", Path: name, Err: fs.ErrNotExist}
+}
+
+func (Empty) Stat(name string) (fs.FileInfo, error) {
+	return nil, &fs.PathError{Op: "stat", Path: name, Err: fs.ErrNotExist}
+}
